@@ -41,6 +41,7 @@ def generate(rng, tier, i):
                 s['outcome'] = rng.choice(['clean', 'clean', 'drop'])
             if rng.random() < 0.25:
                 s['busy_second'] = True
+                s['busy_other_pgn'] = rng.random() < 0.5
             if rng.random() < 0.3:
                 s['with_in'] = {'peer': rng.choice(scn['peers']), 'mode': rng.choice(['cmdt', 'bam']), 'len': rng.choice([per + 2, 3 * per]),
                                 'ca': rng.randrange(ncas)}
@@ -125,7 +126,10 @@ def execute(scn, keep_log=False, hook=None):
                 break
             if s.get('busy_second') and not fd:
                 n0 = len(bus.frames)
-                ok2 = st.cas[s['ca']].send_pgn(0, pf, ps, 6, list(fresh(s['len'])))
+                # another parameter group for the same (SA,DA) pair (other PF for a destination-specific message, other
+                # group extension for a broadcast): the pair is busy all the same
+                pf2, ps2 = (pf, ps) if not s.get('busy_other_pgn') else ((pf, 0xCB) if bam else (0xD1, ps))
+                ok2 = st.cas[s['ca']].send_pgn(0, pf2, ps2, 6, list(fresh(s['len'])))
                 if ok2 is not False:
                     viol.append({'clause': 'accepted-on-busy-pair', 'rank': 2, 'msg': 'step %d: second send_pgn on a busy (SA,DA) pair returned %r' % (si, ok2)})
                 elif len(bus.frames) != n0:
